@@ -266,23 +266,12 @@ impl World {
 		};
 		// every update_add_htlc ever delivered on this channel, from the wire (the manager's own list
 		// omits HTLCs it has already removed locally but which a commitment transaction still holds)
-		let mut on_wire: Vec<(bool, u32)> = Vec::new();
-		for p in self.pays.iter() {
-			for path in p.paths.iter() {
-				for (k, c) in path.chans.iter().enumerate() {
-					if *c != ci {
-						continue;
-					}
-					let recv = path.nodes[k];
-					let sender = if k == 0 { p.from } else { path.nodes[k - 1] };
-					if let Some(v) = self.oracle.adds_emitted.get(&(p.hash.0, sender)) {
-						for (_, cltv) in v.iter() {
-							on_wire.push((recv != n, *cltv));
-						}
-					}
-				}
-			}
-		}
+		let mut on_wire: Vec<(bool, u32)> = self
+			.oracle
+			.adds_by_chan
+			.get(&ci)
+			.map(|v| v.iter().map(|(sender, cltv)| (*sender == n, *cltv)).collect())
+			.unwrap_or_default();
 		// plus whatever the manager itself listed when last asked (HTLCs it has signed for but whose
 		// update_add_htlc never left the node because the peer disconnected first)
 		for (outbound, expiry, _, _) in view.htlcs.iter() {
